@@ -209,7 +209,8 @@ pub fn explore<Sys: System>(sys: &Sys, lim: &Limits) -> Report {
 	let mut seen: HashSet<u128> = HashSet::new();
 	// arena of nodes for path reconstruction
 	let mut nodes: Vec<Node> = Vec::new();
-	let mut labels: Vec<String> = Vec::new(); // per node: shown action (root: init label)
+	let mut labels: Vec<String> = Vec::new(); // per root: init label
+	let mut acts: Vec<Option<Sys::Act>> = Vec::new(); // per node: action that led to it
 	let mut frontier: Vec<(Sys::State, u32, u32)> = Vec::new(); // state, node id, dev used
 
 	let dev_in_key = lim.max_dev != u32::MAX;
@@ -235,15 +236,17 @@ pub fn explore<Sys: System>(sys: &Sys, lim: &Limits) -> Report {
 		}
 		let id = nodes.len() as u32;
 		nodes.push(Node { parent: u32::MAX });
+		acts.push(None);
 		labels.push(label);
 		frontier.push((s, id, 0));
 		rep.states += 1;
 	}
 
-	let path_of = |nodes: &Vec<Node>, labels: &Vec<String>, mut id: u32| -> (String, Vec<String>) {
+	// roots are the first `labels.len()` nodes
+	let path_of = |nodes: &Vec<Node>, acts: &Vec<Option<Sys::Act>>, labels: &Vec<String>, mut id: u32| -> (String, Vec<String>) {
 		let mut p = Vec::new();
 		while nodes[id as usize].parent != u32::MAX {
-			p.push(labels[id as usize].clone());
+			p.push(sys.show_act(acts[id as usize].as_ref().unwrap()));
 			id = nodes[id as usize].parent;
 		}
 		p.reverse();
@@ -302,7 +305,7 @@ pub fn explore<Sys: System>(sys: &Sys, lim: &Limits) -> Report {
 						rep.exempt += 1;
 					}
 					if let Some(f) = fail {
-						let (init, mut path) = path_of(&nodes, &labels, pid);
+						let (init, mut path) = path_of(&nodes, &acts, &labels, pid);
 						path.push(sys.show_act(&a));
 						bag.push(Violation {
 							system: sys.name(),
@@ -320,7 +323,7 @@ pub fn explore<Sys: System>(sys: &Sys, lim: &Limits) -> Report {
 						}
 						let id = nodes.len() as u32;
 						nodes.push(Node { parent: pid });
-						labels.push(sys.show_act(&a));
+						acts.push(Some(a));
 						next_frontier.push((ns, id, nd));
 						rep.states += 1;
 						fresh += 1;
@@ -355,7 +358,7 @@ pub fn explore<Sys: System>(sys: &Sys, lim: &Limits) -> Report {
 	}
 	ids.dedup();
 	for id in ids {
-		let (init, path) = path_of(&nodes, &labels, id);
+		let (init, path) = path_of(&nodes, &acts, &labels, id);
 		rep.samples
 			.push(serde_json::json!({"system": sys.name(), "init": init, "path": truncate_path(&path)}));
 	}
@@ -398,15 +401,15 @@ pub fn explore_dfs<Sys: System>(sys: &Sys, lim: &Limits) -> Report {
 		..Default::default()
 	};
 	// prefix expansion
-	struct Item<S> {
+	struct Item<S, A> {
 		s: S,
 		init: String,
-		path: Vec<String>,
+		path: Vec<A>,
 		dev: u32,
 		depth: u32,
 	}
 	let mut bag = VioBag::new();
-	let mut work: Vec<Item<Sys::State>> = sys
+	let mut work: Vec<Item<Sys::State, Sys::Act>> = sys
 		.inits()
 		.into_iter()
 		.map(|(s, l)| Item {
@@ -438,12 +441,12 @@ pub fn explore_dfs<Sys: System>(sys: &Sys, lim: &Limits) -> Report {
 				rep.transitions += 1;
 				rep.exempt += ex as u64;
 				let mut path = it.path.clone();
-				path.push(sys.show_act(&a));
+				path.push(a.clone());
 				if let Some(f) = fail {
 					bag.push(Violation {
 						system: sys.name(),
 						init: it.init.clone(),
-						path: path.clone(),
+						path: path.iter().map(|a| sys.show_act(a)).collect(),
 						failure: f,
 						deviations: nd,
 					});
@@ -487,14 +490,14 @@ pub fn explore_dfs<Sys: System>(sys: &Sys, lim: &Limits) -> Report {
 		depth: u32,
 		dev: u32,
 		init: &str,
-		path: &mut Vec<String>,
+		path: &mut Vec<Sys::Act>,
 		acc: &mut Acc,
 	) {
 		acc.max_depth = acc.max_depth.max(depth);
 		if depth >= lim.max_depth {
 			acc.leaves += 1;
 			if acc.sample.is_none() {
-				acc.sample = Some((init.to_string(), path.clone()));
+				acc.sample = Some((init.to_string(), path.iter().map(|a| sys.show_act(a)).collect()));
 			}
 			return;
 		}
@@ -518,12 +521,12 @@ pub fn explore_dfs<Sys: System>(sys: &Sys, lim: &Limits) -> Report {
 			};
 			acc.transitions += 1;
 			acc.exempt += ex as u64;
-			path.push(sys.show_act(&a));
+			path.push(a.clone());
 			if let Some(f) = fail {
 				acc.bag.push(Violation {
 					system: sys.name(),
 					init: init.to_string(),
-					path: path.clone(),
+					path: path.iter().map(|a| sys.show_act(a)).collect(),
 					failure: f,
 					deviations: nd,
 				});
